@@ -377,7 +377,16 @@ impl TextSelection {
     fn beginaligned_cursor(&self, cursor: &Cursor) -> Result<usize, StamError> {
         let textlen = self.end() - self.begin();
         match *cursor {
-            Cursor::BeginAligned(cursor) => Ok(cursor),
+            Cursor::BeginAligned(cursor) => {
+                if cursor > textlen {
+                    Err(StamError::CursorOutOfBounds(
+                        Cursor::BeginAligned(cursor),
+                        "TextResource::beginaligned_cursor(): begin aligned cursor ends up past the end",
+                    ))
+                } else {
+                    Ok(cursor)
+                }
+            }
             Cursor::EndAligned(cursor) => {
                 if cursor > 0 {
                     Err(StamError::CursorOutOfBounds(
@@ -403,6 +412,13 @@ impl TextSelection {
             self.begin + self.beginaligned_cursor(&offset.begin)?,
             self.begin + self.beginaligned_cursor(&offset.end)?,
         );
+        if end < begin {
+            return Err(StamError::InvalidOffset(
+                offset.begin,
+                offset.end,
+                "End must be greater than begin",
+            ));
+        }
         Ok(TextSelection {
             intid: None,
             begin,
